@@ -81,7 +81,7 @@ def optional_rule(ck, fb, rule="U.optional", floor=3):
         called = bool(fb.callers(f.id)) or f.d.get("access") == "public" or not f.cls
         for b, i, x in sites:
             O = cn.s(x["r"])
-            ok = any(p_ is True and s_ in (O + ".operator bool()", O + ".has_value()", O) for s_, p_, c_ in cn.facts(b)) or any(p_ is False and s_ in ("!" + O, "!" + O + ".has_value()") for s_, p_, c_ in cn.facts(b))
+            ok = any(p_ is True and s_ in (O + ".operator bool()", O + ".has_value()", O) for s_, p_, c_ in cn.facts(b)) or any(p_ is False and s_ in ("!" + O, "!" + O + ".has_value()", "!" + O + ".operator bool()", O + ".operator!()") for s_, p_, c_ in cn.facts(b))
             if not ok and not called:
                 dead += 1
                 ck.note("%s: unguarded dereference of %s in %s, which nothing calls (dead private helper)" % (f.loc(x), O[:50], f.pq.split("OpenVolumeMesh::")[-1]))
